@@ -162,6 +162,20 @@ func c17Sequential(r *zsim.Run) {
 		if !resolve() {
 			return
 		}
+		if limit > 0 {
+			// with a limit the victim of an eviction depends on whether an entry that is expiring in this very
+			// instant is still counted: the model cannot know, so such instants are let settle first (runs
+			// without a limit keep racing their operations against the expiry callbacks)
+			for _, kk := range keys {
+				if e := model[kk]; e != nil && r.Now() >= mustUntil(e) && r.Now() <= mayUntil(e) {
+					r.Quiesce()
+					if !resolve() {
+						return
+					}
+					break
+				}
+			}
+		}
 		k := keys[o.Intn(len(keys))]
 		if o.Intn(2) == 0 {
 			// half of the time the operation goes to a key that may be expiring right now, if there is one
